@@ -414,6 +414,8 @@ var LyTemplates = []string{
 	"backend b {\n  .host = \"h\"; // t1\n~  .connect_timeout = 1s; // t2\n~  .port = \"443\"; # t3\n}\ntable t {\n  \"a\": \"1\", // t4\n~  \"bbbb\": \"2\", // t5\n}\n",
 	// 14: a compound condition with the operators at the beginning of the continuation lines
 	"sub vcl_recv {\n  if (req.http.a^\n      && req.http.b^\n      || req.http.c) {\n    esi;\n  }\n}\n",
+	// 15: own-line comments between vertical gaps in declaration bodies
+	"backend b {\n  .host = \"h\";\n~  # c1\n~  .port = \"443\";\n~  # c2\n~  .probe = {\n    .interval = 1s;\n  }\n}\ntable t {\n  \"a\": \"1\",\n~  # c3\n~  \"b\": \"2\",\n}\nacl a {\n  \"10.0.0.0\"/8;\n~  # c4\n~  \"::1\";\n}\n",
 }
 
 func lyRender(t string, max int) string {
